@@ -5,6 +5,7 @@ import z3
 from symnp import stubs
 from symnp.core import ozeros, R, SymReal
 from symnp.diff import diff
+from symnp.funcs import renorm
 from symnp.harness import unit
 from harness import gp_common as gc
 
@@ -18,7 +19,7 @@ EXPLANATION = (
     "d^2 k/dq dq'|_{q'=q} - (dK_qx)(K_xx+S)^-1(dK_xq) (mixed second derivative taken of the real kernel call, solve "
     "certified), symmetric; a batched call equals the stack of single-point calls."
 )
-BOUNDS = {"quick": "n<=2 training points, d<=2", "thorough": "n=3 training points, d<=2 (gradient covariance: n=3 only for d=1; n=3,d=2 undecided within 120 s)"}
+BOUNDS = {"quick": "n<=2 training points, d<=2", "thorough": "n=3 training points, d<=2"}
 ASSUMPTIONS = [
     "floats as reals; cholesky / solve_triangular exact contract stubs",
     "positive semi-definiteness of the gradient covariance follows from the asserted Schur-complement closed form (trusted lemma)",
@@ -77,7 +78,7 @@ def variance_gradient_is_derivative_of_variance(h, mean, n, d):
     h.is_gradient("spatial_derivatives(q) variance part == d variance / d q", fv, q, np.atleast_1d(dv))
 
 
-@unit("C16", quick=[dict(n=1, d=1), dict(n=2, d=1), dict(n=2, d=2)], thorough=[dict(n=3, d=1)], cost=5)
+@unit("C16", quick=[dict(n=1, d=1), dict(n=2, d=1), dict(n=2, d=2)], thorough=[dict(n=3, d=1), dict(n=3, d=2)], cost=5)
 def gradient_covariance_closed_form(h, n, d):
     rg, cv, gp, x, y, th, pm, L, K = _gp(h, n, d, "const")
     q = h.real("q", d)
@@ -95,7 +96,7 @@ def gradient_covariance_closed_form(h, n, d):
             kq = R(kfun(q, qp))
             for j in range(d):
                 e = diff(diff(kq, q[i].e), qp[j].e)
-                prior[i, j] = SymReal(z3.simplify(z3.substitute(e, *[(qp[c].e, q[c].e) for c in range(d)])))
+                prior[i, j] = SymReal(renorm(z3.substitute(e, *[(qp[c].e, q[c].e) for c in range(d)])))
             for m in range(n):
                 dKqx[i, m] = SymReal(diff(R(kfun(q, x[m])), q[i].e))
         else:
